@@ -25,7 +25,8 @@ and the language documents — never from the compiler or the VM:
 Where the documents are silent the outcome is `unc` (unconstrained): the oracle then makes no
 demand on the implementation.  In particular the oracle looks into containers through a view of bounded
 depth (`reifyDepth`); a value nested deeper than that (or cyclic) is not cut off silently: every
-construct that looks into it is `unc` (`reifyM` / `expandsWithin`).
+construct that looks into it is `unc` (`reifyM` / `expandsWithin`).  Mutating a container that is (part of) a key
+stored in some map is `unc` too (`St.keyed`, `markKeyM`, `guardKeyed`): the documents say nothing about it.
 -/
 namespace P2sh.Ref
 
@@ -53,6 +54,7 @@ structure St where
   out : List String := []              -- lines written by `puts` (newest first)
   bvars : List (String × Val) := []    -- builtin variables (NP, PL, WL, TSS, TSU) when set
   active : List Nat := []              -- closure ids of the activations currently running (innermost first)
+  keyed : List Nat := []               -- ids of the containers that are, or are inside, a key stored in some map
 
 inductive Err where
   | rt (line : Nat)     -- runtime error raised by the construct on `line`
@@ -163,6 +165,39 @@ def reifyM (v : Val) : M Val := do
   let s ← get
   if expandsWithin s.heap reifyDepth v then return reify s.heap reifyDepth v else throw .unc
 
+/-- the ids of the containers reachable from `v` (through the heap: the elements of arrays, the keys and values of
+maps, transitively); `none` when the traversal does not complete within the fuel (the discipline of `expandsWithin`) -/
+def reachIds (h : Heap) : Nat → Val → Option (List Nat)
+  | 0, .arr .. => none
+  | 0, .map .. => none
+  | 0, _ => some []
+  | fuel+1, .arr id xs =>
+    match (if id == 0 then xs else h.getArr id).mapM (reachIds h fuel) with
+    | some rest => some ((if id == 0 then [] else [id]) ++ rest.flatten)
+    | none => none
+  | fuel+1, .map id kvs =>
+    match (if id == 0 then kvs else h.getMap id).mapM (fun (k, v) =>
+        match reachIds h fuel k, reachIds h fuel v with
+        | some a, some b => some (a ++ b)
+        | _, _ => none) with
+    | some rest => some ((if id == 0 then [] else [id]) ++ rest.flatten)
+    | none => none
+  | _+1, _ => some []
+
+/-- `k` is being stored as a key of a map: every container it is, or contains, becomes KEYED.  The documents say nothing
+about mutating an object that is (part of) a map key (the implementation hashed the key when it was inserted): a later
+mutation of a keyed container is `unc` (`guardKeyed`).  A scalar key adds nothing. -/
+def markKeyM (k : Val) : M Unit := do
+  let s ← get
+  match reachIds s.heap reifyDepth k with
+  | some [] => pure ()
+  | some ids => set { s with keyed := ids ++ s.keyed }
+  | none => throw .unc
+
+/-- the container `id` is about to be mutated: unconstrained when it is (part of) a key of some map -/
+def guardKeyed (id : Nat) : M Unit := do
+  if (← get).keyed.contains id then throw .unc
+
 def reflectM (v : Val) : M Val := do
   let s ← get
   let (h, v') := reflect s.heap reifyDepth v
@@ -173,10 +208,14 @@ def reflectM (v : Val) : M Val := do
 def mutateM (target : Val) (newContents : Val) : M Unit := do
   match target, newContents with
   | .arr id _, .arr _ xs =>
+    guardKeyed id
     let xs' ← xs.mapM reflectM
     modify fun s => { s with heap := s.heap.set id (.arr xs') }
   | .map id _, .map _ kvs =>
+    guardKeyed id
     let kvs' ← kvs.mapM fun (k, v) => do return (← reflectM k, ← reflectM v)
+    -- the keys of the new contents (those the `insert` builtin adds among them) are stored keys
+    for (k, _) in kvs' do markKeyM k
     modify fun s => { s with heap := s.heap.set id (.map kvs') }
   | _, _ => pure ()
 
@@ -352,6 +391,7 @@ def evalE : Nat → Env → Expr → M (R Val)
         for (k, v) in ps do
           let k' ← reifyM k
           if !k'.isValidKey then throw (.rt l)
+          markKeyM k
           m := (Spec.Assoc.insert m k' v).1
         let v ← reflectM (.map 0 m)
         pure (.val v env)
@@ -472,11 +512,16 @@ def indexSet (l : Nat) (va vi v : Val) : M Unit := do
   | .arr id _, .int n =>
     let xs := s.heap.getArr id
     if n.toInt < 0 || n.toInt ≥ xs.length then throw (.rt l)
-    else modify fun s => { s with heap := s.heap.set id (.arr (xs.set n.toInt.toNat v)) }
+    else do
+      -- an array that is (part of) a key of some map is not mutated with a specified outcome
+      guardKeyed id
+      modify fun s => { s with heap := s.heap.set id (.arr (xs.set n.toInt.toNat v)) }
   | .arr _ _, _ => throw (.rt l)
   | .map id _, k => do
     let k' ← reifyM k
     if !k'.isValidKey then throw (.rt l)
+    guardKeyed id
+    markKeyM k
     let kvs := s.heap.getMap id
     let kvs' ← kvs.mapM fun (a, b) => do return (← reifyM a, b)
     let (m', _) := Spec.Assoc.insert kvs' k' v
